@@ -82,7 +82,7 @@ func (v *FnV) initLog(st *State) {
 	}
 	v.logKinds = kinds
 	st.ghost = map[string]string{"lgN": "0"}
-	for _, k := range []string{"lgK", "lgF", "lgI", "lgR", "lgE", "lgA", "lgB"} {
+	for _, k := range []string{"lgK", "lgF", "lgI", "lgR", "lgE", "lgA", "lgB", "lgD"} {
 		name := k + "!0"
 		v.c.glob("ghost:"+name, fmt.Sprintf("(declare-const %s %s)", name, ghostSort(k)))
 		st.ghost[k] = name
@@ -139,6 +139,11 @@ func (v *FnV) logCall(st *State, ci *callInfo, results []Value) {
 			set("lgB", b)
 		}
 	}
+	if len(ci.args) > 2 {
+		if b := v.boxed1(st, ci.args[2]); b != "" {
+			set("lgD", b)
+		}
+	}
 	if len(results) > 0 {
 		if b := v.boxed1(st, results[0]); b != "" {
 			set("lgR", b)
@@ -163,7 +168,7 @@ func (v *FnV) havocLog(st *State) {
 	st.declare(nn, "Int")
 	st.assume(sLe(oldN, nn))
 	st.ghost["lgN"] = nn
-	for _, k := range []string{"lgK", "lgF", "lgI", "lgR", "lgE", "lgA", "lgB"} {
+	for _, k := range []string{"lgK", "lgF", "lgI", "lgR", "lgE", "lgA", "lgB", "lgD"} {
 		na := v.c.freshName(k)
 		st.declare(na, ghostSort(k))
 		st.axiom(fmt.Sprintf("(forall ((k!g Int)) (! (=> (< k!g %s) (= (select %s k!g) (select %s k!g))) :pattern ((select %s k!g))))", oldN, na, st.ghost[k], na))
@@ -181,7 +186,7 @@ func (v *FnV) havocLog(st *State) {
 // spLog evaluates the log builtins of the contract language.
 func (v *FnV) spLog(st *State, name string, e *SExpr, sc *Scope) (Value, bool) {
 	switch name {
-	case "ncallsof", "callis", "callfn", "callidx", "callarg", "callarg1", "callres", "callerr":
+	case "ncallsof", "callis", "callfn", "callidx", "callarg", "callarg1", "callarg2", "callres", "callerr":
 	default:
 		return Value{}, false
 	}
@@ -218,6 +223,8 @@ func (v *FnV) spLog(st *State, name string, e *SExpr, sc *Scope) (Value, bool) {
 		return Value{T: anyT, S: sSelect(st.ghost["lgA"], k.S)}, true
 	case "callarg1":
 		return Value{T: anyT, S: sSelect(st.ghost["lgB"], k.S)}, true
+	case "callarg2":
+		return Value{T: anyT, S: sSelect(st.ghost["lgD"], k.S)}, true
 	case "callres":
 		return Value{T: anyT, S: sSelect(st.ghost["lgR"], k.S)}, true
 	case "callerr":
